@@ -113,7 +113,8 @@ class Contract:
             elif f == "induction":
                 self.induction = (ast.literal_eval(args[0]), args[1] if len(args) > 1 else ast.Constant(0))
             elif f == "uses":
-                self.uses += [ast.literal_eval(a) for a in args]
+                # uses("lemma", param=<expression over the function's entry state>, ...): unbound lemma parameters stay universal
+                self.uses.append((ast.literal_eval(args[0]), dict(kw)))
             elif f == "option":
                 for k, v in kw.items():
                     self.options[k] = ast.literal_eval(v)
